@@ -190,6 +190,22 @@ def run(ck, prog, tier, load):
             g2 = guarded_by(poll, bb, flag_edge("KEEP_ALIVE", False))[0]
             ck.ob("C03-c.finished-shutdown-needs-body-done", "Dispatcher::poll", g and g2, poll, bb, "FINISHED -> SHUTDOWN only with !KEEP_ALIVE (%s) and payload.is_none() (%s)" % (g2, g))
     ck.anchor("C03-c", n_t, 1, "FINISHED -> SHUTDOWN transition in Dispatcher::poll")
+    # FINISHED is the only memory of "a response cycle completed, close/keep-alive decision outstanding":
+    # it may be dropped only (i) together with the decision (-> SHUTDOWN) or (ii) by a socket read
+    # that is not the drain of a payload the handler dropped (the decision is deferred to the end of the drain)
+    n_f = 0
+    for b in prog.in_file("actix-http/src/h1/dispatcher.rs"):
+        for bb, op, fl, t in flag_ops(b):
+            if op == "remove" and "FINISHED" in fl:
+                n_f += 1
+                decided = any(op2 == "insert" and "SHUTDOWN" in fl2 and b.dominates(bb, bb2) for bb2, op2, fl2, t2 in flag_ops(b))
+                not_draining = any(
+                    strip_not(c)[0][0] == "call" and rx(r"Option::is_some_and$").search(strip_not(c)[0][1] or "") and e_has_field(c, PAY)
+                    and ((lab if strip_not(c)[1] else not lab) is False)
+                    for c, lab, a in b.guards(bb) if isinstance(lab, bool))
+                ck.ob("C03-c.finished-kept-while-draining", b.npath.split("::")[-1], decided or not_draining, b, bb,
+                      "FINISHED is cleared only with the close decision (SHUTDOWN: %s) or by a read that is not draining a dropped payload (%s)" % (decided, not_draining))
+    ck.anchor("C03-c", n_f, 2, "remove(FINISHED) sites")
     sc = prog.one(r"^actix_http::h1::dispatcher::should_close_for_unread_payload$")
     # structure: result may be true only under payload.is_some(); equals !drain; drain non-false only under is_dropped with value payload_drainable
     ok1 = ok2 = ok3 = True
